@@ -94,6 +94,10 @@ class C01(Check):
                 {**base, 'text': t({'jsonrpc': '2.0', 'id': True, 'method': 'noargs'})},
                 {**base, 'text': t({'jsonrpc': '2.0', 'id': docs.PLACEHOLDER, 'method': 'noargs'}, huge='overflow')},
                 {**base, 'text': t([{'jsonrpc': '2.0', 'id': 1, 'method': 'noargs'}, {'jsonrpc': docs.PLACEHOLDER, 'id': 2, 'method': 'noargs'}], huge='overflow')},
+                {**base, 'text': t({'jsonrpc': '2.0', 'id': 1, 'method': 'echo', 'params': [docs.PLACEHOLDER]}, huge='overflow')},
+                {**base, 'text': t({'jsonrpc': '2.0', 'id': 1, 'method': 'echo', 'params': {'a': [docs.PLACEHOLDER]}}, huge='overflow')},
+                {**base, 'text': {'raw': '{"jsonrpc":"2.0","method":"echo","params":["\ud800"],"id":1}'}},
+                {**base, 'text': {'raw': '\udc00'}},
                 {**base, 'text': {'raw': ''}},
                 {**base, 'text': {'raw': '[]'}},
                 {**base, 'text': t([1])},
